@@ -719,6 +719,8 @@ func digest(ai actInfo, ops map[string]int, methods map[string]*methodInfo) ([]s
 		pred = ".const " + r
 	case r == "c.data.PrepareCustomDice(p)":
 		pred = ".customDice"
+	case r == "lineBreakBefore(p.data, p.pt.offset)":
+		pred = ".lineBreakBefore"
 	case r == "false":
 		// `return false` inside an action body (break / continue outside a loop): the value is ignored
 	default:
@@ -872,7 +874,7 @@ func init() {
 // (not regenerated): a change there is a broken tie that the checks must chase with a deeper search.
 func genFingerprints(pf *pkgFiles) (string, error) {
 	want := map[string]bool{"FlagsPush": true, "FlagsPop": true, "LoopBegin": true, "LoopEnd": true, "BreakPush": true, "ContinuePush": true,
-		"loopUnwindBlocks": true, "AddOp": true, "WriteCode": true, "checkStackOverflow": true, "CodePush": true, "CodePop": true}
+		"loopUnwindBlocks": true, "AddOp": true, "WriteCode": true, "checkStackOverflow": true, "CodePush": true, "CodePop": true, "parseFlagsKey": true, "lineBreakBefore": true}
 	var rows []string
 	f := pf.files["parser.go"]
 	if f == nil {
@@ -880,7 +882,7 @@ func genFingerprints(pf *pkgFiles) (string, error) {
 	}
 	for _, d := range f.Decls {
 		fd, ok := d.(*ast.FuncDecl)
-		if !ok || fd.Recv == nil || fd.Body == nil || !want[fd.Name.Name] {
+		if !ok || fd.Body == nil || !want[fd.Name.Name] || (fd.Recv == nil && fd.Name.Name != "lineBreakBefore") {
 			continue
 		}
 		txt := strings.Join(strings.Fields(exprTextNode(pf, fd.Body)), " ")
